@@ -117,7 +117,7 @@ def _public(repo: Repo, m: FuncInfo) -> bool:
 # --------------------------------------------------------------------------- R2
 
 
-def _value_of_type(it: Interp, t, roles: dict, key, pos: str = "key"):
+def _value_of_type(it: Interp, t, roles: dict, key, pos: str = "key", src: str = ""):
     """Abstract value of a query result, built from its annotation: dict[tuple[Module, Module], list[tuple[Module, Module]]] etc."""
     out = set()
     for m in members(t):
@@ -125,14 +125,14 @@ def _value_of_type(it: Interp, t, roles: dict, key, pos: str = "key"):
             out.add(Const(None))
         elif m[0] == "b" and m[1] == "dict" and len(m[2]) == 2:
             r = it.dict_((key, "dict"), "query result")
-            it.store_entry(r, _value_of_type(it, m[2][0], roles, (key, "k"), "key"), _value_of_type(it, m[2][1], roles, (key, "v"), "val"))
+            it.store_entry(r, _value_of_type(it, m[2][0], roles, (key, "k"), "key", src), _value_of_type(it, m[2][1], roles, (key, "v"), "val", src))
             out.add(r)
         elif m[0] == "b" and m[1] in ("list", "set", "seq", "iter", "frozenset") and m[2]:
-            out.add(it.coll((key, "coll"), "query result", _value_of_type(it, m[2][0], roles, (key, "e"), "elem")))
+            out.add(it.coll((key, "coll"), "query result", _value_of_type(it, m[2][0], roles, (key, "e"), "elem", src)))
         elif m[0] == "b" and m[1] == "tuple" and len(m[2]) == 2:
-            out.add(Tup((_value_of_type(it, m[2][0], roles, (key, 0), "importer"), _value_of_type(it, m[2][1], roles, (key, 1), "importee")), "query result (importer, importee)"))
+            out.add(Tup((_value_of_type(it, m[2][0], roles, (key, 0), "importer", src), _value_of_type(it, m[2][1], roles, (key, 1), "importee", src)), "query result (importer, importee)"))
         elif m[0] == "cls" and pos in roles:
-            out.add(Sc(roles=frozenset({roles[pos]})))
+            out.add(Sc(roles=frozenset({roles[pos]}), srcs=frozenset({src} if src else ())))
         else:
             out.add(Opaque(f"{pos}"))
     return frozenset(out)
@@ -168,6 +168,9 @@ def run_r2(repo: Repo, res: Result) -> None:
             raise AnalysisError(f"{cls.fq}: no public method returning RuleViolations found")
         for entry in entries:
             verdicts: dict[str, dict[str, list]] = {f: {"good": [], "swapped": [], "unknown": []} for f in fields}
+            dropped: dict[str, set] = {f: set() for f in fields}
+            init = repo.lookup_method(cls, "__init__")
+            filters_by_design = init is not None and any(any(m[0] == "cls" and m[1].rsplit(".", 1)[-1] == "LayerMapping" for m in members(_ann(T, init, p))) for p in init.params[1:])
             for world in (True, False):
                 it = Interp(repo)
                 kind = "import" if world else "be-imported-by"
@@ -198,7 +201,7 @@ def run_r2(repo: Repo, res: Result) -> None:
                 args = []
                 for i, p in enumerate(entry.params[1:]):
                     t = _ann(T, entry, p)
-                    v = _value_of_type(it, t, roles, ("input", p.arg))
+                    v = _value_of_type(it, t, roles, ("input", p.arg), src=p.arg)
                     if not any(isinstance(sh, Ref) and sh.kind == "dict" for sh in v):
                         raise AnalysisError(f"{entry.fq}: parameter `{p.arg}` is not annotated with a query result type (dict of dependencies)")
                     args.append(v)
@@ -218,6 +221,8 @@ def run_r2(repo: Repo, res: Result) -> None:
                             if isinstance(sh, Ref) and sh.kind == "coll":
                                 for el in it.elems(V(sh)):
                                     verdicts[f][_pair_verdict(it, el)].append((kind, getattr(el, "site", "") or (el.why if isinstance(el, Top) else "")))
+                                    for sc in it.scalars(V(el)):
+                                        dropped[f] |= {(mk[1], mk[2]) for mk in sc.marks if mk[0] == "part"}
                             elif isinstance(sh, Top):
                                 verdicts[f]["unknown"].append((kind, sh.why))
                             elif not (isinstance(sh, Const) and sh.value is None):
@@ -244,6 +249,17 @@ def run_r2(repo: Repo, res: Result) -> None:
                     res.add("C03.R2", construct, True, "every pair reaching the bucket is (rule subject, rule object) for import and for be-imported-by rules", where(entry, entry.node), kind="flow")
                 else:
                     res.add("C03.R2", construct, True, "the bucket receives no pairs from the query results", where(entry, entry.node), nontrivial=False)
+                if not filters_by_design and (v["good"] or v["swapped"]):
+                    # module rules: every realised pair / every key without realisation is forwarded (layer detectors drop same-layer pairs by design: C05)
+                    ok = not dropped[f]
+                    res.add(
+                        "C03.R3",
+                        f"{cls.module.relpath}::{cls.name}.{entry.name}::{f} keeps every pair",
+                        ok,
+                        "no pair of the query result is dropped on the way into the bucket (only emptiness of a key's list decides)" if ok else "pairs of the query result are dropped on the way into the bucket: " + "; ".join(f"{why} [{w}]" for w, why in sorted(dropped[f])[:2]) + ": imports of the violating set are not listed",
+                        sorted(dropped[f])[0][0] if dropped[f] else where(entry, entry.node),
+                        kind="flow",
+                    )
     res.floor("C03.R2", 16, n)
 
 
